@@ -133,6 +133,19 @@ def provisionCaddyTransport (rt : Nat → Option Nat) (dir : Option Directive) (
     | some .local_ => .ok { kind := .local_ }
     | some (.bolt b) => provisionBoltBlock rt b
 
+/-- caddy/mercure.go UnmarshalCaddyfile, "BC layer with old versions of the built-in Caddyfile": the environment
+    variable MERCURE_TRANSPORT_URL stands in for `transport_url` **only when the block configures no transport at
+    all** — neither a `transport` directive nor a `transport_url`. -/
+def effectiveURL (dir : Option Directive) (url env : Option URL) : Option URL :=
+  match url, dir with
+  | some u, _ => some u
+  | none, some _ => none
+  | none, none => env
+
+/-- Provision with the process environment taken into account. -/
+def provisionCaddyTransportEnv (rt : Nat → Option Nat) (dir : Option Directive) (url env : Option URL) : Except Err Eff :=
+  provisionCaddyTransport rt dir (effectiveURL dir url env)
+
 /-- config.go SetConfigDefaults: `transport_url` defaults to bolt://updates.db. -/
 def legacyDefaultURL : URL := { scheme := "bolt".toList, path := [], host := "updates.db".toList }
 
